@@ -70,6 +70,8 @@ SubPairs ==
         A == AnnRefs
     IN {<<TB("Text", r, NoRef, Off("B", 1, "B", 2)), TB("Text", r, NoRef, Off("B", 0, "B", 1))>> : r \in R}
        \cup {<<TB("Text", r, NoRef, Off("B", 0, "B", 1)), TB("Res", r, NoRef, NoOffset)>> : r \in R}
+       \* a text part next to two references to annotations (consecutive ones are kept as an internal ranged selector)
+       \cup {<<TB("Text", r, NoRef, Off("B", 0, "B", 1)), TB("Ann", x, NoRef, NoOffset), TB("Ann", y, NoRef, NoOffset)>> : r \in R, x \in A, y \in A}
        \* three text parts with mixed alignment, in and out of textual order (candidates for the internal ranged selector)
        \cup UNION {{<<TB("Text", r, NoRef, Off("B", 0, "B", 1)), TB("Text", r, NoRef, Off("B", 1, "B", 2)), TB("Text", r, NoRef, Off("E", -1, "E", 0))>>,
                     <<TB("Text", r, NoRef, Off("E", -1, "E", 0)), TB("Text", r, NoRef, Off("B", 0, "B", 1)), TB("Text", r, NoRef, Off("B", 1, "B", 2))>>,
@@ -297,6 +299,12 @@ PreludeOps ==
                               ann("a3", txt(0, 2), <<w("motivation", "v1"), w("created", "v3")>>),
                               ann("a4", TB("Res", ById("r1"), NoRef, NoOffset), <<w("created", "v1")>> \o d2),
                               ann("a5", Complex("Multi", <<txt(0, 1), txt(2, 3)>>), d1 \o <<w("creator", "v1")>>)>>
+         \* 22: equal non-string values under different explicit identifiers (they are not de-duplicated)
+         [] Prelude = 22 -> LET e(i, v) == DB(ById("s1"), ById("k1"), ById(i), v) IN
+                            <<addres, addset,
+                              ann("a1", txt(0, 1), <<e("d1", IntVal(1)), e("d3", TypedVal("bool", 1, <<>>)), e("d5", NullVal), e("d7", TypedVal("float", 3, <<>>))>>),
+                              ann("a2", txt(1, 2), <<e("d2", IntVal(1)), e("d4", TypedVal("bool", 1, <<>>)), e("d6", NullVal), e("d8", TypedVal("float", 3, <<>>))>>),
+                              ann("a3", txt(0, 2), <<e("d9", TypedVal("bool", 0, <<>>)), DB(ById("s1"), ById("k2"), ById("d10"), IntVal(1)), e("d11", TypedVal("bool", 0, <<>>))>>)>>
          \* 6: metadata annotations on keys/data/sets and annotations on annotations (chain + relative offset)
          [] OTHER -> <<addres, addset, ann("a1", txt(0, 2), d1),
                        ann("", TB("Key", ById("s1"), ById("k1"), NoOffset), <<>>),
@@ -619,7 +627,7 @@ FindOps == {RO("FindData", [set |-> sk[1], key |-> sk[2], op |-> ov[1], v |-> ov
                sk \in QSetKeys \cup {<<st.sets[s].id, "">> : s \in LiveSets(st)} \cup {<<"", "">>},
                ov \in QOpVals \cup {<<"=", [t |-> "any", s |-> "", n |-> 0, l |-> <<>>]>>, <<"=", StrVal("v2")>>, <<"!=", IntVal(1)>>, <<"=", IntVal(-7)>>,
                                     <<"=", StrVal("1")>>, <<"!=", StrVal("1")>>, <<"=", StrVal("1.5")>>, <<"=", StrVal("yes")>>, <<"=", StrVal("-7")>>,
-                                    <<"=", TypedVal("bool", 0, <<>>)>>, <<"=", TypedVal("float", 2, <<>>)>>,
+                                    <<"=", TypedVal("bool", 0, <<>>)>>, <<"=", TypedVal("float", 2, <<>>)>>, <<"=", TypedVal("float", 3, <<>>)>>, <<"!=", NullVal>>,
                                     <<"or", TypedVal("list", 0, <<StrVal("v1"), IntVal(1)>>)>>, <<"!or", TypedVal("list", 0, <<StrVal("v1"), NullVal>>)>>,
                                     <<"or", TypedVal("list", 0, <<StrVal("1"), TypedVal("bool", 1, <<>>)>>)>>,
                                     <<"and", TypedVal("list", 0, <<IntVal(-8), IntVal(1)>>)>>, <<"and", TypedVal("list", 0, <<IntVal(0), IntVal(2)>>)>>,
